@@ -199,15 +199,19 @@ P["C04"] = {"property": "C04", "level": "proof", "units": [
 
 # ====================== jwt_checker_verify (top level) =====================
 TOP_STUBS = LIBC + ["stubs/time.c", "stubs/verify_top.c"]
+TOP_CLAUSE_PROPS = [["C14", 2], ["C01", 1], ["C06", 2], ["C02", 4], ["C19", 2]]
 def top(prop, replay=None, **kw):
-    c = "contract_%s_jwt_checker_verify" % prop
-    return U(prop + ".jwt_checker_verify", "jwt_checker_verify (libjwt/jwt-common.c as jwt-checker)", common_tu("CHECKER"),
+    """the shared top-level unit: same definition whatever property asks for it"""
+    c = "contract_all_jwt_checker_verify"
+    kw.setdefault("clause_props", TOP_CLAUSE_PROPS)
+    kw.setdefault("base_ensures", 2)
+    return U("TOP.jwt_checker_verify", "jwt_checker_verify (libjwt/jwt-common.c as jwt-checker)", common_tu("CHECKER"),
              "contracts/jwt_common_c.h",
              "OPS_TAKE_ADDRESSES(all); void *volatile cbp = (void *)contract_cb_checker; jwt_checker_t *c; size_t n; __CPROVER_assume(n < 0x10000000); char *tok = nondet_bool() ? NULL : VS(n); jwt_checker_verify(c, tok);",
              "jwt_checker_verify/" + c,
-             replace=["__setkey_check/contract_C02___setkey_check", "jwt_verify_complete/contract_all_jwt_verify_complete"],
+             replace=["__setkey_check/contract_C02___setkey_check"],
              stubs=TOP_STUBS, defines=["VERIF_TU_CHECKER", "VERIF_STRCPY_ERRBUF"], pre=[VS], flags=[], object_bits=10, timeout=900,
-             expect=[c + "\\.postcondition\\.2", "contract_all_jwt_verify_complete\\.precondition", "contract_cb_checker\\.precondition"],
+             expect=[c + "\\.postcondition\\.2", "jwt_verify_complete\\.assertion", "contract_cb_checker\\.precondition"],
              replay=replay, **kw)
 
 # ============================ parsing units =================================
@@ -245,8 +249,9 @@ P["C06"] = {"property": "C06", "level": "proof", "units": [
 # =============================== C09 =======================================
 P["C09"] = {"property": "C09", "level": "proof", "units": gate_chain("C09") + [vc("C09")]}
 
-P["C19"] = {"property": "C19", "level": "proof", "units": [top("C19")]}
-P["C14"]["units"].append(top("C14"))
+P["C19"] = {"property": "C19", "level": "proof", "units": [top("C19", replay={"driver": "replay/r_C19.c"})]}
+for _p in ("C01", "C02", "C03", "C04", "C06", "C09", "C14"):
+    P[_p]["units"].append(top(_p))
 
 # ---------------------------------------------------------------------------
 def main():
